@@ -97,7 +97,8 @@ def dg_ok(tag, g):
 
 # --------------------------------------------------------------------------------------
 _SET = [{"label": "%s,%s,%s" % (cfg, kind, fit), "cfg": cfg, "kind": kind, "fit": fit}
-        for cfg in ("empty", "a", "v", "av") for kind in ("Array", "Vector") for fit in ("same_shape", "other_shape", "replace")
+        for cfg in ("empty", "a", "v", "av") for kind in ("Array", "Vector")
+        for fit in ("same_shape", "other_shape", "replace", "other_rank_0d", "other_rank_2d")
         if not (cfg == "empty" and fit != "same_shape")]
 
 
@@ -113,12 +114,16 @@ def setitem(case):
         core.assume(k2 != dims.n)
     d2 = A.Dims()
     d2.n = k2
+    # a value of another rank (a 0-d scalar, a 2-d table) does not fit an (n,) group either
+    kind_shape = {"other_rank_0d": "0d", "other_rank_2d": "2d"}.get(case["fit"], "1d")
+    if kind_shape == "2d":
+        d2.m = core.fresh_int("m2", 1)
     if case["kind"] == "Vector":
         u = spint.sym_unit("unew")
         dt = snp.sym_dtype("dtnew")
-        val = osy.Vector(*[A.mk_array("new" + c, d2, "1d", unit=u, dt=dt) for c in "xy"], name="orig")
+        val = osy.Vector(*[A.mk_array("new" + c, d2, kind_shape, unit=u, dt=dt) for c in "xy"], name="orig")
     else:
-        val = A.mk_array("new", d2, "1d")
+        val = A.mk_array("new", d2, kind_shape)
         val.name = "orig"
     key = "new" if case["fit"] != "replace" else (CONFIGS[case["cfg"]][0])
     s = snap_group(g)
@@ -127,7 +132,7 @@ def setitem(case):
         raised = False
     except ValueError:
         raised = True
-    if case["fit"] == "other_shape":
+    if case["fit"] in ("other_shape", "other_rank_0d", "other_rank_2d"):
         prove("rejected", raised)
         group_unchanged("rejected.group", g, s)
         prove("rejected.value_name_untouched", val.name == "orig")
@@ -289,6 +294,41 @@ def sortby(case):
 # --------------------------------------------------------------------------------------
 _MUT = [{"label": "%s,%s" % (cfg, op), "cfg": cfg, "op": op} for cfg in ("a", "av", "abv")
         for op in ("delitem", "pop", "clear", "update_ok", "update_bad", "init_from_dict")]
+
+
+@unit("C06", "Datagroup.fill_empty", targets=[DG + ":Datagroup.update", DG + ":Datagroup.__init__", DG + ":Datagroup.__setitem__"],
+      cases=[{"label": "%s,%s" % (how, state), "how": how, "state": state} for how in ("update", "update_kwargs", "init")
+             for state in ("new", "cleared", "emptied")], replay=NC.replay_datagroup)
+def fill_empty(case):
+    """an empty group has no shape yet: values given together must still agree with each other"""
+    osy = O()
+    dims, d2 = A.Dims(), A.Dims()
+    core.assume(dims.n >= 1)
+    core.assume(d2.n != dims.n)
+    good = A.mk_array("good", dims, "1d")
+    bad = A.mk_array("bad", d2, "1d")
+    if case["state"] == "new":
+        g = osy.Datagroup()
+    else:
+        g, _ = mk_group(CONFIGS["a"], dims)
+        if case["state"] == "cleared":
+            g.clear()
+        else:
+            for k in list(g.keys()):
+                del g[k]
+    try:
+        if case["how"] == "update":
+            g.update({"good": good, "bad": bad})
+        elif case["how"] == "update_kwargs":
+            g.update(good=good, bad=bad)
+        else:
+            g = osy.Datagroup({"good": good, "bad": bad})
+        raised = False
+    except ValueError:
+        raised = True
+    prove("rejected", raised)
+    if not raised:
+        dg_ok("post", g)
 
 
 @unit("C06", "Datagroup.mutators", targets=[DG + ":Datagroup.__delitem__", DG + ":Datagroup.pop", DG + ":Datagroup.clear",
